@@ -173,6 +173,10 @@ func (s *Server) Run(addr string, opt ...Option) error {
 		connID++
 		select {
 		case <-s.shutdownCtx.Done():
+			// the server was stopped (maybe even before it was listening):
+			// release the port and wait for the connections already accepted
+			_ = s.listener.Close()
+			s.connWg.Wait()
 			return nil
 		default:
 			// need a default to fall through to rest of loop...
@@ -181,6 +185,7 @@ func (s *Server) Run(addr string, opt ...Option) error {
 		if err != nil {
 			if strings.Contains(err.Error(), "use of closed network connection") {
 				s.logger.Debug("accept on closed conn")
+				s.connWg.Wait()
 				return nil
 			}
 			return fmt.Errorf("%s: error accepting conn: %w", op, err)
@@ -195,8 +200,6 @@ func (s *Server) Run(addr string, opt ...Option) error {
 		s.connWg.Add(1)
 		go func() {
 			defer func() {
-				s.logger.Debug("connWg done", "op", op, "conn", localConnID)
-				s.connWg.Done()
 				err := conn.close()
 				if err != nil {
 					s.logger.Error("error closing conn", "op", op, "conn", localConnID, "conn/req", "err", err)
@@ -206,6 +209,9 @@ func (s *Server) Run(addr string, opt ...Option) error {
 				if s.onCloseHandler != nil {
 					s.onCloseHandler(localConnID)
 				}
+				// only now is the connection done: Stop waits for this
+				s.logger.Debug("connWg done", "op", op, "conn", localConnID)
+				s.connWg.Done()
 			}()
 
 			if !s.disablePanicRecovery {
